@@ -243,6 +243,8 @@ def classify(case):
         cl.append("mask-as-python-list")
     if case.get("columns_after_info"):
         cl.append("vcf-with-sample-columns-read-as-plain-entries")
+    if case.get("slice_written_then_parent_read"):
+        cl.append("slice-written-then-parent-read")
     sel = ("slice", "mask", "ilist", "perm")
     if "perm" in kinds:
         cl.append("same-length-permutation")
@@ -490,6 +492,14 @@ def c04_case(draw, fmt, max_records, max_steps):
     case["program"] = draw(st.lists(op_strategy(fmt), min_size=1, max_size=max_steps))
     if draw(st.integers(0, 5)) == 0:
         case["write_source_last"] = True
+    if len(case["records"]) >= 2 and draw(st.integers(0, 3)) == 0:
+        # a plain slice that does not start at the first record is taken and written, then the table it was taken from is read and written:
+        # what the slice did to itself for writing must not reach its parent
+        chain = [{"op": "slice", "src": 0, "start": draw(st.integers(1, len(case["records"]) - 1)), "stop": None, "step": None},
+                 {"op": "write", "src": -1}, {"op": "rows", "src": 0}]
+        case["program"] = chain + case["program"][:max(0, max_steps - 3)]
+        case["write_source_last"] = True
+        case["slice_written_then_parent_read"] = True
     return case
 
 
